@@ -103,7 +103,7 @@ def check_layout(arg):
     if v % 4 == 3:
         # fixed form: expected text squeezed, label, name, span
         L = layout.fixed_layout(st, rng, gen.USER_NAMES, wrap=rng.choice([72, 40, 30, 66]), contc=rng.choice("&1$x+"),
-                                cmt=rng.choice("Cc*!"), label_style=rng.choice(["left", "right", "mid"]), comments=True)
+                                cmt=rng.choice("Cc*!"), label_style=rng.choice(["left", "right", "mid", "spaced"]), comments=True)
         import props.c05 as c05mod  # noqa
         if not c05mod.no_blank_before_wrap(L):
             return []      # blanks at the end of a continued fixed-form line are stripped: recorded under C05 (F10)
@@ -215,7 +215,7 @@ def run(ctx):
         r2 = random.Random(ctx.seed + k)
         if k % 3 == 2:
             L = layout.fixed_layout(st, r2, gen.USER_NAMES, wrap=r2.choice([72, 40, 30, 66]), contc=r2.choice("&1$x+"),
-                                    cmt=r2.choice("Cc*!"), label_style=r2.choice(["left", "right", "mid"]))
+                                    cmt=r2.choice("Cc*!"), label_style=r2.choice(["left", "right", "mid", "spaced"]))
             cases.append((L.lines, 0, 0, k % 2))
         else:
             L = layout.free_layout(st, r2, gen.USER_NAMES, comments=True, p_comment=0.3, p_break=0.4)
